@@ -146,12 +146,37 @@ def run(ck):
         cases = [(c["prim"], c["args"]) for c in rp.get("cases", [])] or [(rp["prim"], rp["args"])]
     else:
         cases = gen_cases(ck, set(idents))
+    # the ephemeral constant INT: parameters whose truncation fits in 32 bits
+    import struct
+    par_cases = []
+    if "int_number" in set(idents) and not ck.replay_path:
+        ps = [float(v) for v in range(-130, 131, 7)] + [0.5, -0.5, 0.999, -0.999, 126.99, -128.0, 2147483647.0,
+              -2147483648.0, 2147483647.5, -2147483648.9, 1e-300, -1e-300, 65535.75, -65536.25]
+        ps += [ck.rng.uniform(-2147483648.0, 2147483647.0) for _ in range(300)]
+        par_cases = [("int_number", p_) for p_ in ps]
     idx = {n: i for i, n in enumerate(idents)}
     hl = ["%s - %d %s" % (n, len(a), " ".join("i:%d" % v for v in a)) for n, a in cases]
     ml = ["%d - %d %s" % (idx[n], len(a), " ".join("i:%d" % v for v in a)) for n, a in cases]
+    for n_, p_ in par_cases:
+        hx = "%016x" % struct.unpack("<Q", struct.pack("<d", p_))[0]
+        hl.append("%s %s 0" % (n_, hx))
+        ml.append("%d %s 0" % (idx[n_], hx))
     hout, crashes = pc.run_harness_resilient(harness, hl)
     rc, mout, merr = vv.run_lines(model, "\n".join(ml) + "\n")
-    if rc != 0 or len(mout) != len(cases):
+    for j, (n_, p_) in enumerate(par_cases):
+        k_ = len(cases) + j
+        ck.count()
+        ck.nontriv((n_, p_))
+        want_ = "i:%d f" % int(p_)        # truncation toward zero
+        if hout[k_] is None or hout[k_].startswith("CRASH"):
+            ck.add_violation("int_number:undefined-behaviour", "int_number with parameter %r executes undefined behaviour" % p_,
+                             {"prim": n_, "param": p_, "impl": hout[k_], "model": mout[k_] if k_ < len(mout) else None})
+        elif hout[k_].strip() != want_.strip():
+            ck.add_violation("int_number:wrong-result", "int_number(%r) returns %s, expected %s" % (p_, hout[k_], want_),
+                             {"prim": n_, "param": p_, "impl": hout[k_], "documented": want_})
+        if k_ < len(mout) and hout[k_] != mout[k_]:
+            ck.add_diff({"prim": n_, "param": p_}, mout[k_], hout[k_])
+    if rc != 0 or len(mout) != len(cases) + len(par_cases):
         raise vv.BuildError("model driver failed: rc=%s %s" % (rc, merr[:500]))
 
     hist = {}
